@@ -37,10 +37,10 @@ var fsPkgs = []string{"pkg/goDB/storage/gpfile", "pkg/goDB", "pkg/goDB/info", "c
 var syncPkgs = []string{"pkg/capture", "pkg/goprobe/writeout"}
 
 type engine struct {
-	Name  string
-	Pkg   string // harness package
-	Kind  string
-	Sync  bool // rewrite sync.Mutex in capture packages
+	Name string
+	Pkg  string // harness package
+	Kind string
+	Sync bool // rewrite sync.Mutex in capture packages
 	// SingleP runs the worker processes with GOMAXPROCS=1: after a channel hand-over inside goProbe
 	// (three-point lock confirmation, semaphore release) two goroutines are runnable at once and
 	// race to their next seam; with one P the Go scheduler resolves that the same way every time
@@ -670,26 +670,26 @@ func aggregate(verifDir, scratch string, bins map[string]string, id string, eng 
 			"violations":  len(reported),
 			"assumptions": total.Assumptions,
 			"coverage": map[string]any{
-				"evaluations":         total.Evaluations,
-				"distinct_nontrivial": len(distinct),
-				"rule":                total.Rule,
-				"samples":             total.Samples,
-				"exhaustive":          false,
+				"evaluations":               total.Evaluations,
+				"distinct_nontrivial":       len(distinct),
+				"rule":                      total.Rule,
+				"samples":                   total.Samples,
+				"exhaustive":                false,
 				"scheduler_steps_or_fs_ops": total.Steps,
-				"sim_time_covered_s":  float64(total.SimTimeNs) / 1e9,
-				"runs_per_hour":       float64(total.Evaluations) / wall * 3600,
-				"fault_counts":        total.Faults,
-				"probes":              total.Probes,
-				"shapes":              total.Shapes,
-				"components_real":     total.Real,
-				"components_stub":     total.Stub,
-				"known_findings_hit":  sortedKeys(known),
-				"workers":             len(results),
-				"repo_state":          repoState(),
-				"rewritten_files":     rw.Files,
-				"rewritten_fs_call_sites": rw.FSSites,
-				"rewritten_mutex_sites":   rw.SyncSites,
-				"build_config":        "go1.26.8 test -c -tags verif -overlay (CGO_ENABLED=1)",
+				"sim_time_covered_s":        float64(total.SimTimeNs) / 1e9,
+				"runs_per_hour":             float64(total.Evaluations) / wall * 3600,
+				"fault_counts":              total.Faults,
+				"probes":                    total.Probes,
+				"shapes":                    total.Shapes,
+				"components_real":           total.Real,
+				"components_stub":           total.Stub,
+				"known_findings_hit":        sortedKeys(known),
+				"workers":                   len(results),
+				"repo_state":                repoState(),
+				"rewritten_files":           rw.Files,
+				"rewritten_fs_call_sites":   rw.FSSites,
+				"rewritten_mutex_sites":     rw.SyncSites,
+				"build_config":              "go1.26.8 test -c -tags verif -overlay (CGO_ENABLED=1)",
 			},
 		}
 		if cfg.Level == "fault_enumeration" {
